@@ -455,7 +455,7 @@ class LmtpClient(Client):
         self._flush_pipeline()
         ret = []
         for address, rcptto_reply in self.rcpttos:
-            if rcptto_reply.code.startswith('2'):
+            if rcptto_reply.code and rcptto_reply.code.startswith('2'):
                 data_reply = Reply(command=b'[SEND_DATA]')
                 self.reply_queue.append(data_reply)
                 ret.append((address, data_reply))
@@ -473,7 +473,7 @@ class LmtpClient(Client):
         self._flush_pipeline()
         ret = []
         for address, rcptto_reply in self.rcpttos:
-            if rcptto_reply.code.startswith('2'):
+            if rcptto_reply.code and rcptto_reply.code.startswith('2'):
                 data_reply = Reply(command=b'[SEND_DATA]')
                 self.reply_queue.append(data_reply)
                 ret.append((address, data_reply))
